@@ -501,6 +501,36 @@ def run_config_path():
         problems.append("the supplemental-rows mapping was modified by evaluation")
     if r is not None and not (r.matched and r2.matched):
         problems.append("a rule querying rows loaded from disk did not match")
+    # the same rows through the two routes a statement takes (normalize_merchant with the rules file loaded from disk, and the whole
+    # statement through parse_generic_csv), with a rule that hands a looked-up ROW on as a field value and as a let binding: the rows -
+    # values and value types (the date column holds dates) - are the same objects with the same content afterwards
+    from tally.merchant_utils import get_all_rules, get_transforms, normalize_merchant
+    from tally.parsers import parse_generic_csv
+    rules_path = os.path.join(base, "config", "merchants.rules")
+    with open(rules_path, "w") as f:
+        f.write('[Ordered]\nlet: order = next((r for r in orders if r.amount == amount), None)\nmatch: contains("NETFLIX") and order != None\n'
+                'category: Shopping\nfield: order = order\nfield: all = [r for r in orders]\ntags: {order.item}\n\n'
+                '[SameDay]\nmatch: date in [r.date for r in orders]\ntags: order-day\n')
+
+    def _typed(rows):
+        return [[(k, type(v).__name__, v) for k, v in sorted(dict(r).items())] for r in rows]
+    typed_before = {k: _typed(v) for k, v in dict(ds).items() if v is not None}
+    H.reset_state()
+    try:
+        transforms = get_transforms(rules_path)
+        rules = get_all_rules(rules_path)
+        first = normalize_merchant("NETFLIX 123", rules, amount=50.0, txn_date=dt.date(2025, 1, 15), transforms=transforms, data_sources=ds)
+        if {k: _typed(v) for k, v in dict(ds).items() if v is not None} != typed_before:
+            problems.append("the supplemental rows were modified by normalize_merchant (a rule keeps a row as a field value)")
+        src = [x for x in cfg["data_sources"] if not x.get("_supplemental")][0]
+        txns = parse_generic_csv(os.path.join(base, "data", "s.csv"), src["_format_spec"], rules, source_name=src["name"],
+                                 transforms=transforms, data_sources=ds)
+        if {k: _typed(v) for k, v in dict(ds).items() if v is not None} != typed_before:
+            problems.append("the supplemental rows were modified by parse_generic_csv (a rule keeps a row as a field value)")
+        if first[1] != "Shopping" or not txns or txns[0].get("category") != "Shopping":
+            problems.append("a rule querying rows loaded from disk did not match through the statement routes")
+    except BaseException as e:  # noqa
+        problems.append(f"statement route raised {type(e).__name__}: {str(e)[:100]}")
     shutil.rmtree(base, ignore_errors=True)
     return problems
 
